@@ -1,6 +1,7 @@
 import Texel.Model.QuadTree
 import Texel.Gen.Flags
 import Texel.Proofs.GenArith
+import Texel.Proofs.GenIsquad
 /-! # C14 — only true quadtree tile matrix sets pass validation
 
 Model `Texel.QT.isQuadTree` (hand-written mirror of `pointindex.IsQuadTree`, tied by the exhaustive `isquad` correspondence:
@@ -141,6 +142,11 @@ any tile matrix of an accepted set makes it rejected -/
 theorem C14_iff (tms : List TM) : isQuadTree tms = none ↔ TrueQuadTree tms :=
   isQuadTreeFrom_none_iff none tms
 
+/-- **C14 on the current source**: the checks `trgen isquad` regenerates from `pointindex.IsQuadTree` on every run accept a tile matrix set if and
+only if it is a true quadtree -/
+theorem C14_iff_source (tms : List TM) : Gen.IQ.isQuadTree tms = none ↔ TrueQuadTree tms :=
+  (GenIsquad.gen_isQuadTree_none tms).trans (C14_iff tms)
+
 /-- `IsQuadTree` always answers (accept or an error number): the model has no panic; that the tool calls it *before*
 `DeviationStats` (which panics on variable matrix widths) is read from the current `main.go` -/
 theorem C14_validate_order : Texel.Gen.Flags.validateOrder = ["IsQuadTree", "DeviationStats"] := by decide
@@ -218,5 +224,6 @@ example : isQuadTree [tm0, { tm1 with idText := "x" }] = some 3 := by decide
 example : isQuadTree [{ tm1 with mw := 1, mh := 1 }] = some 6 := by decide
 example : isQuadTree [{ tm0 with mw := 2, mh := 2 }, { tm1 with mw := 4, mh := 4 }] = some 14 := by decide
 example : isQuadTree [{ tm0 with tw := 300, th := 300 }] = some 12 := by decide
+example : Gen.IQ.isQuadTree [tm0, tm1] = none ∧ Gen.IQ.isQuadTree [tm0, { tm1 with mw := 3, mh := 3 }] = some "tile matrix should double in size each level" := by decide
 
 end Texel.C14
